@@ -1,5 +1,5 @@
 PROOF = dict(
-    properties=["C08"], name="smtpd_addrparse",
+    properties=["C08"], name="smtpd_addrparse", slow=True,
     title="qmail-smtpd.c addrparse(): localiphost substitution only for a complete local bracketed literal; length limit after substitution",
     functions=["qmail-smtpd.c:addrparse", "ip.c:ip_scanbracket", "ip.c:ip_scan", "byte_rchr.c:byte_rchr", "str_chr.c:str_chr", "scan_ulong.c:scan_ulong"],
     units=["harness.c", "stubs2.c", "repo:ip.c", "repo:byte_rchr.c", "repo:str_chr.c", "repo:scan_ulong.c"],
